@@ -40,6 +40,14 @@ impl Out {
             distinct: Default::default(),
         }
     }
+    /// run one operation on the implementation with panics caught (an edited engine may panic; the panic
+    /// becomes that operation's observed outcome instead of killing the run)
+    pub fn run(&mut self, st: &mut crate::ops::ImplState, op: &str) -> String {
+        let r = std::panic::catch_unwind(std::panic::AssertUnwindSafe(|| st.apply(op)));
+        let a = match r { Ok(a) => a, Err(_) => { *st = crate::ops::ImplState::new(); "panic".to_string() } };
+        self.op(op, &a);
+        a
+    }
     /// one operation and the implementation's answer to it
     pub fn op(&mut self, op: &str, answer: &str) {
         debug_assert!(!op.contains('\n') && !answer.contains('\n'));
